@@ -950,7 +950,7 @@ impl World {
             let mut all = XHopOut { line: "rejected".to_string(), viols: vec![], tags: vec!["sub_grid"] };
             for kd in ["swap", "liq", "dec"] {
                 for slot in 0..15 {
-                    for forge in 0..6 {
+                    for forge in 0..7 {
                         let sl = slot.to_string();
                         let fg = forge.to_string();
                         let o = self.x_sub(&[t[0], t[1], kd, &sl, t[4], &fg]);
@@ -1106,7 +1106,20 @@ impl World {
         // copy names the stranger as holder and the stranger signs as position authority.
         let forge: u32 = t.get(5).and_then(|x| x.parse().ok()).unwrap_or(0);
         let mut subst = subst;
-        if forge > 0 {
+        if forge == 6 {
+            // variant 6: a byte-identical copy of one of the pool's VAULTS at another address, under the SAME token
+            // program (anyone can create a token account of the right mint whose authority is the pool): only the
+            // address distinguishes it from the pool's vault
+            if orig != fx.vault_a && orig != fx.vault_b {
+                return XHopOut { line: "skip NoForgery".to_string(), viols, tags: vec!["sub_no_forgery"] };
+            }
+            let o = fx.bank.get(&orig);
+            let cloned = k(0x74, slot as u8);
+            fx.bank.set(cloned, o.owner, o.lamports, o.data.clone());
+            m2[slot].key = cloned;
+            subst = cloned;
+            tags.push("sub_cloned_vault");
+        } else if forge > 0 {
             let o = fx.bank.get(&orig);
             // the trader's own token accounts are validated by the token program only when tokens actually move
             // (a zero-amount side makes no transfer), so a forged copy there says nothing about the whirlpool program
@@ -1932,12 +1945,34 @@ impl World {
                 }
             }
         }
+        // modes 3 / 4 (C15): the vault slot (4: the second vault of collect_protocol_fees) holds a byte-identical copy
+        // of the pool's vault at another address - right mint, right token program, authority = the pool
+        let mut bank0 = bank0;
+        if auth_mode >= 3 {
+            let target = match kind {
+                "cproto" => if auth_mode == 4 { fx.vault_b } else { fx.vault_a },
+                _ => rvault(idx),
+            };
+            let o = fx.bank.get(&target);
+            let cloned = k(0x74, auth_mode);
+            fx.bank.set(cloned, o.owner, o.lamports, o.data.clone());
+            bank0 = fx.bank.clone();
+            for m in metas.iter_mut() {
+                if m.key == target {
+                    m.key = cloned;
+                }
+            }
+        }
         let (res, out) = fx.bank.execute(&metas, &data);
         let line = match &res {
             Err(e) => {
                 let name = err_name(e, &out.logs);
                 if fx.bank.accts != bank0.accts {
                     viols.push("a failed reward / protocol-fee instruction changed account state".to_string());
+                }
+                if auth_mode >= 3 {
+                    tags.push("rew_cloned_vault_rejected");
+                    return XHopOut { line: format!("err {}", name), viols, tags };
                 }
                 if auth_mode != 0 {
                     tags.push("rew_unauthorized_rejected");
@@ -1966,6 +2001,10 @@ impl World {
                 format!("err {}", name)
             }
             Ok(()) => {
+                if auth_mode >= 3 {
+                    viols.push(format!("C15 `{}` v{} accepted, in its vault slot, a token account of the right mint and authority that is not the pool's vault", kind, ver));
+                    return XHopOut { line: "ACCEPTED".to_string(), viols, tags };
+                }
                 if auth_mode != 0 {
                     viols.push(format!("C04 `{}` succeeded although its authority did not sign (mode {})", kind, auth_mode));
                 }
